@@ -265,9 +265,11 @@ void AsyncPipe::Impl::appendLockless(const void *data_ptr, size_t data_size)
                 buff_num_mutex_.lock();
                 //! 如果缓冲块数还没有达到最大限值，则可以继续申请
                 if (buff_num_ < cfg_.buff_max_num) {
-                    ++buff_num_;
                     buff_num_mutex_.unlock();
+                    //! 先申请，成功后再计数：new 抛出 bad_alloc 时 buff_num_ 不能把没申请到的缓冲算进去
                     free_buffers_.push_back(new Buffer(cfg_.buff_size));
+                    std::lock_guard<std::mutex> lg(buff_num_mutex_);
+                    ++buff_num_;
                 } else {  //! 否则只能等待后端释放
                     buff_num_mutex_.unlock();
                     free_buffers_cv_.wait(lk, [this] { return !free_buffers_.empty(); });
